@@ -33,11 +33,12 @@ type Config struct {
 	StopAfterViol   int
 	NoIfConv        bool
 	NoSymPtr        bool
+	TracePanics     bool
 }
 
 func DefaultConfig() Config {
 	return Config{Workers: 16, MaxSteps: 200_000_000, MaxDecisions: 100_000, MaxPaths: 5_000_000,
-		Solver: "z3-new", TimeoutMs: 20_000, HeavyTimeoutMs: 60_000, Samples: 4, StopAfterViol: 8, ProfileFns: true}
+		Solver: "z3-new", TimeoutMs: 20_000, HeavyTimeoutMs: 60_000, Samples: 4, StopAfterViol: 8, TracePanics: os.Getenv("VERIF_TRACE") != "", ProfileFns: true}
 }
 
 // Program is the loaded SSA program plus harness metadata; shared,
